@@ -86,11 +86,10 @@ func GetNumGPUFractionDevices(pod *v1.Pod) (int64, error) {
 
 func GetGpuGroups(pod *v1.Pod) []string {
 	var gpuGroups []string
-	gpuGroup, found := pod.Labels[constants.GPUGroup]
-	if !found {
-		return nil
+	// a single-fraction pod carries the plain label, a multi-fraction pod only the per-group labels
+	if gpuGroup, found := pod.Labels[constants.GPUGroup]; found {
+		gpuGroups = append(gpuGroups, gpuGroup)
 	}
-	gpuGroups = append(gpuGroups, gpuGroup)
 	for labelKey, labelValue := range pod.Labels {
 		if strings.HasPrefix(labelKey, constants.MultiGpuGroupLabelPrefix) {
 			gpuGroups = append(gpuGroups, labelValue)
